@@ -59,7 +59,7 @@ m = {
     ],
     'checks': checks,
     'not_applicable': [],
-    'notes': 'All 20 properties are claimed with bounded solver-based checks. Parts outside the technique are stated per check: C04 static/lifetime half (not claimed), C13 "every switch combination compiles" and C19 "builds against core alone" (build facts exercised by building 9 MIR variants and a 16-point no_std matrix, not solver verdicts). Exit codes: 0 held, 1 VIOLATION (natively replayed), 2 inconclusive (never reported as pass). known_findings.json records one fixed defect (C09, chunk-size lines without digits).',
+    'notes': 'All 20 properties are claimed with bounded solver-based checks. Parts outside the technique are stated per check: C04 static/lifetime half (not claimed; seeded change C04c, a lifetime-only signature edit, is accordingly not detected - DESIGN section 12 round 6), C13 "every switch combination compiles" and C19 "builds against core alone" (build facts exercised by building 9 MIR variants and a 16-point no_std matrix, not solver verdicts). Exit codes: 0 held, 1 VIOLATION (natively replayed), 2 inconclusive (never reported as pass). known_findings.json records one fixed defect (C09, chunk-size lines without digits).',
 }
 json.dump(m, open('/verif/MANIFEST.json', 'w'), indent=1)
 print('ok', len(checks))
